@@ -1718,10 +1718,12 @@ def listing_reads_within_span(run, R="MPT"):
     # the two listings and the private helpers of the module that read a span's digits for them
     listing = [f for f in run.prog.real_fns() if f.kind == "AssocFn" and re.search(r"::format_(annotated|tcgame)$", f.id)]
     helpers = []
+    spec = run.table("formats")
+    known_formatters = {v[0] for v in spec["dispatch"].values()} | {v[0] for v in spec["wrappers"].values()} | set(spec["wrappers"].keys())
     for f in listing:
         for bi, t in f.calls():
             h = run.prog.fn(t.get("resolved") or "")
-            if h is not None and h.id.startswith("util::bitvec_format") and not re.search(r"::format_\w+$", h.id) and any("BitVecSpan" in str(ty) for ty in (t.get("arg_tys") or [])) and h not in helpers:
+            if h is not None and h.id.startswith("util::bitvec_format") and h.id.rsplit("::", 1)[-1] not in known_formatters and any("BitVecSpan" in str(ty) for ty in (t.get("arg_tys") or [])) and h not in helpers:
                 helpers.append(h)
     for f in listing + helpers:
         for bi, t in f.calls():
